@@ -86,7 +86,7 @@ RefOK(tr) ==
 SelOK(tr) ==
   \A i \in 1..Len(tr.sels) :
     LET s == tr.sels[i] IN
-    /\ s.yielded = SelLoop(0, Len(tr.pages), Range(s.pagenos), s.maxpages, Dev)
+    /\ s.yielded = SelLoop(Len(tr.pages), Range(s.pagenos), s.maxpages, Dev)
     /\ ("ContinueSkipsMax" \notin Dev) => s.yielded = RefSelect(Len(tr.pages), Range(s.pagenos), s.maxpages)
 
 TEndTrace == /\ Live /\ pc = "done" /\ k = Len(Cur.pages)
